@@ -86,7 +86,7 @@ fn execute(ctx: &Ctx, c: &Cfg) -> Obs {
     }
     _ => {}
   }
-  let tname = if c.name { "renamed" } else { "content" };
+  let tname = if c.name { "re.named.v1.2" } else { "content" }; // a name with dots: `<name>.torrent` must keep all of it
   // output target
   let (out_arg, final_rel): (Option<String>, Option<String>) = match c.output {
     "default" => (None, Some(format!("in/{tname}.torrent"))),
@@ -95,7 +95,9 @@ fn execute(ctx: &Ctx, c: &Cfg) -> Obs {
     "stdout" => (Some("-".into()), None),
     "missing-parent" => (Some("no/such/dir/t.torrent".into()), Some("no/such/dir/t.torrent".into())),
     "through-file" => (Some("in-the-way/t.torrent".into()), Some("in-the-way/t.torrent".into())),
-    _ => (Some("/dev/full".into()), None),
+    // a device node that fails every write with ENOSPC, created inside the sandbox: the system's own /dev/full is never
+    // handed to the program under test (a faulty build run as root could unlink or replace it)
+    _ => (Some("devfull".into()), None),
   };
   sb.mkdir("out");
   if c.output == "dir" {
@@ -103,6 +105,13 @@ fn execute(ctx: &Ctx, c: &Cfg) -> Obs {
   }
   if c.output == "through-file" {
     sb.write("in-the-way", b"regular file");
+  }
+  if c.output == "dev-full" {
+    let ok = std::process::Command::new("mknod").arg("-m").arg("666").arg(sb.path("devfull")).args(["c", "1", "7"]).status().map(|s| s.success()).unwrap_or(false);
+    if !ok {
+      // not permitted here: a file on a full file system cannot be had otherwise; the case is skipped by the caller
+      return Obs { code: None, signal: None, stderr: "mknod not permitted".into(), stdout_len: 0, before: Default::default(), after: Default::default(), mtimes_changed: false, final_rel: None, stdout_is_torrent: false, written_is_torrent: false };
+    }
   }
   if let (Some(rel), true) = (&final_rel, matches!(c.output, "default" | "file" | "dir")) {
     match c.pre {
@@ -201,7 +210,7 @@ fn spec(c: &Cfg) -> (i32, bool) {
     return (1, false);
   }
   if c.output == "dev-full" && !c.force {
-    return (1, false); // /dev/full exists: refused like any existing output
+    return (1, false); // the device node exists: refused like any existing output
   }
   if c.fault == "read-error" {
     return (1, false);
@@ -224,7 +233,7 @@ fn spec(c: &Cfg) -> (i32, bool) {
 
 pub fn run(ctx: &Ctx) -> Report {
   let mut report = Report::new(
-    "complete enumeration on the real binary, whole-sandbox snapshot (paths, types, sizes, SHA-1; mtimes of the input) before and after: --force x --dry-run x output {default, file, directory, -, missing parent, path through a file, /dev/full} \
+    "complete enumeration on the real binary, whole-sandbox snapshot (paths, types, sizes, SHA-1; mtimes of the input) before and after: --force x --dry-run x output {default, file, directory, -, missing parent, path through a file, a sandbox-local ENOSPC device node (mknod c 1 7)} \
      x pre-existing output {absent, file, directory, dangling symbolic link} x input {file, dir, stdin} x --name x failure cause {none, piece-length lint, private lint, bad glob, bad option, missing input, undecodable file name, dangling symlink and read error (/proc/self/mem) under --follow-symlinks}; \
      plus interference runs (another process creates the output file after the existence check, while imdl is still reading standard input; with and without --force) and verify/show/link frames; all cases non-trivial; distinct by configuration",
   );
@@ -271,6 +280,10 @@ pub fn run(ctx: &Ctx) -> Report {
   let runs: Vec<(Cfg, Obs)> = cfgs.into_par_iter().map(|c| { let o = execute(ctx, &c); (c, o) }).collect();
   let mut model = Model::spawn(&ctx.vmodel);
   for (c, o) in &runs {
+    if o.code.is_none() && o.signal.is_none() && o.stderr == "mknod not permitted" {
+      report.hit("skipped:mknod-not-permitted");
+      continue;
+    }
     let case = cfg_json(c);
     report.case(Some(fnv_str(&case.to_string())));
     report.hit(&format!("fault:{}", c.fault));
